@@ -16,4 +16,15 @@ CLAIMED = {
     ),
 }
 
+CLAIMED['C11'] = (
+    'constant propagation through the generator helpers + table agreement + sympy normal form of the AS241 Horner forms (ast)',
+    'For all 21 catalogue entries: key tokens = description tokens = feature vector of the bound generator (distribution, support, '
+    'source, base, skip, antithetic construction, draw count) obtained by propagating constants through native_draws.py into the base '
+    'generators; the base generators themselves are checked for the 2u-1 map, the mirror constructions, the returned shape, the Halton '
+    'skip slice and the MLHS stratum formula; the 49 AS241 constants, the three Horner forms, region predicates and sign handling are '
+    'compared with the published algorithm. Decides which sequence each name is bound to and that the quantile routine is the published '
+    'one, not the numeric values of the arrays. One known finding (central-region predicate of AS241).',
+    'DESIGN.md 3/C11',
+)
+
 NOT_APPLICABLE = {f'C{i:02d}': WIP for i in range(1, 20)}
